@@ -270,7 +270,7 @@ theorem C15_server_admits_only_if
 
 /-- **Peer certificates are exposed.** A handler of a connection accepted by tonic's acceptor
 finds, in the `TlsConnectInfo` request extension, exactly the chain the TLS session holds; and
-`Request::peer_certs()` returns the same over TCP (and only ever that chain or nothing). -/
+`Request::peer_certs()` returns the same over TCP (and only ever that chain or nothing). (Transcription lemma: it holds by unfolding the model's definition, so it pins the model's shape for the correspondence run — its assurance about tonic is the tie, not this proof.) -/
 theorem C15_peer_certs_exposed (inner : InnerInfo) (sessionPeer : Option Chain) :
     let e := extensionsTlsIo (tlsStreamConnectInfo inner sessionPeer)
     Request.tlsInfoCerts e = some sessionPeer ∧
@@ -280,7 +280,7 @@ theorem C15_peer_certs_exposed (inner : InnerInfo) (sessionPeer : Option Chain) 
 
 /-- The same when the application accepted TLS itself and hands `TlsStream<T>`s to a tonic
 server without `tls_config` (`impl Connected for TlsStream<T>`): the handler still finds the
-session's chain, and `Request::peer_certs()` agrees over TCP. -/
+session's chain, and `Request::peer_certs()` agrees over TCP. (Transcription lemma: it holds by unfolding the model's definition, so it pins the model's shape for the correspondence run — its assurance about tonic is the tie, not this proof.) -/
 theorem C15_peer_certs_exposed_user_accepted (inner : InnerInfo) (sessionPeer : Option Chain) :
     let e := extensionsUserTls (tlsStreamConnectInfo inner sessionPeer)
     Request.tlsInfoCerts e = some sessionPeer ∧
@@ -288,7 +288,7 @@ theorem C15_peer_certs_exposed_user_accepted (inner : InnerInfo) (sessionPeer : 
     (Request.peerCerts e = sessionPeer ∨ Request.peerCerts e = none) := by
   cases inner <;> simp [extensionsUserTls, tlsStreamConnectInfo, Request.tlsInfoCerts, Request.peerCerts]
 
-/-- Without TLS on the connection there is nothing to expose: `peer_certs()` is `None`. -/
+/-- Without TLS on the connection there is nothing to expose: `peer_certs()` is `None`. (Transcription lemma: it holds by unfolding the model's definition, so it pins the model's shape for the correspondence run — its assurance about tonic is the tie, not this proof.) -/
 theorem C15_no_peer_certs_without_tls (inner : InnerInfo) :
     Request.peerCerts (extensionsPlain (Chain := Chain) inner) = none ∧
     Request.tlsInfoCerts (extensionsPlain (Chain := Chain) inner) = none := by
